@@ -206,10 +206,23 @@ def render_ff(steps, header, trailer, o):
 
 # ------------------------------------------------------------------------------------------------ observation
 
+_ITEM_CACHE = {}
+
+
 def item_tokens(item):
-    """One returned / written item -> (tokens, envelope is exactly '(' one line ')' newline)."""
+    """One returned / written item -> (tokens, envelope is exactly '(' one line ')' newline).  Memoised; the
+    token lists are shared and never mutated."""
     if not isinstance(item, str):
         return [repr(item)], False
+    hit = _ITEM_CACHE.get(item)
+    if hit is None:
+        if len(_ITEM_CACHE) > 20000:
+            _ITEM_CACHE.clear()
+        hit = _ITEM_CACHE[item] = _item_tokens(item)
+    return hit
+
+
+def _item_tokens(item):
     env = (len(item) >= 3 and item[0] == "(" and item.endswith(")\n") and "\n" not in item[:-1]
            and "(" not in item[1:] and ")" not in item[:-2])
     inner = item.strip()
@@ -348,6 +361,7 @@ def check_ff(case):
 
         # --- get_solving_status
         obs = None
+        returned_ok = False
         if isinstance(got, Raised):
             r.outcome("plan:status-raised")
             rec.fail("raised", f"get_solving_status raised {got}; {where}", ["ok", exp[:3]], got.to_json(),
@@ -377,6 +391,7 @@ def check_ff(case):
                          tags0)
             elif status == "ok":
                 r.outcome("plan:ok")
+                returned_ok = True
 
         # --- parse_plan + file read back
         if file_raised is not None:
@@ -386,10 +401,15 @@ def check_ff(case):
         elif content is None:
             if n == 0:
                 r.outcome("plan-file:zero-steps-no-file")
+            elif obs == []:
+                # nothing returned, nothing written: one failure, recorded above
+                r.outcome("plan-file:same-as-returned:no-file")
             else:
                 r.outcome("plan-file:missing")
                 rec.fail("plan-file", f"{n}-step plan: parse_plan wrote no file; {where}", around(exp, []), None,
                          ["no-file"] + tags0)
+        elif returned_ok and content == "".join(got[1]):
+            r.outcome("plan-file:ok")  # exactly the returned items, each already checked to be one line
         else:
             fitems = file_items(content)
             fparsed = [item_tokens(it) for it in fitems]
